@@ -64,6 +64,12 @@ func loopBodyEntries(h *ssa.BasicBlock) []*ssa.BasicBlock {
 // start of an iteration back to the loop header executes an instruction satisfying pass, except
 // along edges pruned by edgeOK (edges that establish an excusing fact). Returns a counter-example path.
 func everyIterationPasses(must ssa.Instruction, pass func(ssa.Instruction) bool, edgeOK func(from, to *ssa.BasicBlock) bool) (bool, []int) {
+	return everyIterationPassesR(must, pass, edgeOK, func(*ssa.Return) bool { return true })
+}
+
+// everyIterationPassesR: as everyIterationPasses; countReturn selects the returns that count as "the
+// iteration ended without passing" (e.g. refusals — `return false` — can be excluded).
+func everyIterationPassesR(must ssa.Instruction, pass func(ssa.Instruction) bool, edgeOK func(from, to *ssa.BasicBlock) bool, countReturn func(*ssa.Return) bool) (bool, []int) {
 	h := loopHeaderOf(must.Block())
 	if h == nil {
 		return false, nil
@@ -73,7 +79,15 @@ func everyIterationPasses(must ssa.Instruction, pass func(ssa.Instruction) bool,
 	for _, s := range loopBodyEntries(h) {
 		starts = append(starts, cfgPos{s, 0})
 	}
-	_, path, found := reachAvoiding(starts, func(in ssa.Instruction) bool { return in == first || isReturn(in) }, pass, func(from, to *ssa.BasicBlock) bool {
+	_, path, found := reachAvoiding(starts, func(in ssa.Instruction) bool {
+		if in == first {
+			return true
+		}
+		if r, ok := in.(*ssa.Return); ok {
+			return countReturn(r)
+		}
+		return false
+	}, pass, func(from, to *ssa.BasicBlock) bool {
 		if !h.Dominates(to) && to != h {
 			// leaving the loop: only returns matter, they are targets themselves
 		}
